@@ -395,12 +395,13 @@ class Voronoi(Mem):
     sqrt_mode = 'monotone'
 
     def instances(self, tier):
-        return [dict(ncells=c, npoints=p) for c in (0, 1, 2, 3) for p in (1, 2)]
+        cellsets = {0: [[]], 1: [[0], [3]], 2: [[0, 3], [2, 2]], 3: [[0, 1, 3]]}
+        return [dict(ncells=c, npoints=p, cells=cs) for c in (0, 1, 2, 3) for p in (1, 2) for cs in cellsets[c]]
 
     def inputs(self, inst, S):
-        # catchment cells come from delineate_area: valid cells of the 2x2 grid
-        return dict(cells=[S.int('cell%d' % i, 0, 3) for i in range(inst['ncells'])], pts=vals(S, 'p', 2 * inst['npoints'], inf=False, lo=-1e6, hi=1e6),
-                    xll=S.real('xll', -1e6, 1e6), yll=S.real('yll', -1e6, 1e6), csz=S.real('csz', 1e-6, 1e6))
+        # catchment cells come from delineate_area: valid cells of the 2x2 grid (listed tuples)
+        return dict(cells=list(inst['cells']), pts=vals(S, 'p', 2 * inst['npoints'], nan=False, inf=False, lo=-1e3, hi=1e3),
+                    xll=S.real('xll', -1e3, 1e3), yll=S.real('yll', -1e3, 1e3), csz=1.0)
 
     def args(self, inst, I):
         return [Scalar('i64', 2), Scalar('i64', 2), Scalar('double', I['xll']), Scalar('double', I['yll']), Scalar('double', I['csz']),
@@ -439,7 +440,9 @@ class DelineateArea(Mem):
                 for ninl in (0, 1):
                     if ninl and tier == 'quick' and r * c > 2:
                         continue
-                    out.append(dict(nrows=r, ncols=c, nval=nval, ninlets=ninl))
+                    for outlet in range(-1, r * c + 1):
+                        for inl in ([[]] if not ninl else [[0], [r * c - 1], [r * c]]):
+                            out.append(dict(nrows=r, ncols=c, nval=nval, ninlets=ninl, outlet=outlet, inlets=inl))
         return out
 
     def cost(self, inst):
@@ -447,7 +450,7 @@ class DelineateArea(Mem):
 
     def inputs(self, inst, S):
         n = inst['nrows'] * inst['ncols']
-        return dict(codes=sym_flow(S, n), outlet=S.int('outlet', -2, n + 1), inlets=[S.int('inlet%d' % i, -2, n + 1) for i in range(inst['ninlets'])])
+        return dict(codes=sym_flow(S, n), outlet=inst['outlet'], inlets=list(inst['inlets']))
 
     def args(self, inst, I):
         nv = inst['nval']
@@ -460,12 +463,13 @@ class River(Mem):
     name, pkg, kernel, srcfile = 'mem:delineate_river', 'gis', 'c_delineate_river', 'gis/c_catchment.c'
 
     def instances(self, tier):
-        return [dict(nrows=r, ncols=c, nval=nv) for r, c in ((1, 1), (1, 2)) + (((2, 2),) if tier == 'thorough' else ()) for nv in (0, 1, 2, 4)]
+        return [dict(nrows=r, ncols=c, nval=nv, start=st) for r, c in ((1, 1), (1, 2)) + (((2, 2),) if tier == 'thorough' else ()) for nv in (0, 1, 2, 4)
+                for st in range(-1, r * c + 1)]
 
     def inputs(self, inst, S):
         n = inst['nrows'] * inst['ncols']
-        I = grid_scalars(S)
-        I.update(codes=sym_flow(S, n), start=S.int('start', -2, n + 1))
+        I = dict(xll=S.real('xll', -1e6, 1e6), yll=S.real('yll', -1e6, 1e6), csz=S.real('csz', 1e-6, 1e6))
+        I.update(codes=sym_flow(S, n), start=inst['start'])
         return I
 
     def args(self, inst, I):
@@ -484,7 +488,7 @@ class FlowPath(Mem):
     def inputs(self, inst, S):
         n = inst['nrows'] * inst['ncols']
         # the area cells come from delineate_area (valid cells); the outlet is whatever the catchment stores
-        return dict(codes=sym_flow(S, n), area=[S.int('a%d' % i, 0, n - 1) for i in range(inst['nval'])], outlet=S.int('outlet', -2, n + 1))
+        return dict(codes=sym_flow(S, n), area=[(i * 3) % n for i in range(inst['nval'])], outlet=S.int('outlet', -2, n + 1))
 
     def args(self, inst, I):
         nv = inst['nval']
